@@ -413,7 +413,7 @@ func (e *Explorer) assert(c Value, label, finding string) {
 			return
 		}
 		// concretely false: still only a violation if the path is feasible
-		if r := e.s.Check(); r == "unsat" {
+		if r := e.s.CheckPath(); r == "unsat" {
 			panic(abortPath{infeasible})
 		} else if r != "sat" {
 			panic(abortPath{"solver: " + r})
@@ -438,11 +438,13 @@ func (e *Explorer) intrinsic(it *Interp, name string, args []Value) Value {
 		if _, ok := e.seen[n]; !ok {
 			t := e.input(n, false)
 			e.s.Assert(inRange(t, intRange{64, true}))
+			t.setRange(intRange{64, true})
 		}
 		return e.seen[n]
 	case "vnInt32":
 		t := e.input(nameOf(args[0], args[1]), false)
 		e.s.Assert(inRange(t, intRange{32, true}))
+		t.setRange(intRange{32, true})
 		return t
 	case "vnChoice":
 		n := nameOf(args[0], args[2])
@@ -451,6 +453,7 @@ func (e *Explorer) intrinsic(it *Interp, name string, args []Value) Value {
 			t := e.input(n, false)
 			e.s.Assert(mk("and", true, mk("<=", true, tInt(0), t), mk("<", true, t, tInt(k))))
 			e.domain[n] = k
+			t.iv, t.lo, t.hi = true, 0, k-1
 		}
 		return e.seen[n]
 	case "vnBool":
@@ -473,6 +476,7 @@ func (e *Explorer) intrinsic(it *Interp, name string, args []Value) Value {
 		}
 		e.s.Assert(c) // lazy: infeasibility surfaces at the next decision/assert
 		e.pcSat = false
+		tighten(c)
 		return nil
 	case "vnAssert":
 		e.assert(args[0], args[1].(string), "")
@@ -482,6 +486,9 @@ func (e *Explorer) intrinsic(it *Interp, name string, args []Value) Value {
 		return nil
 	case "vnNote":
 		e.res.Note = args[0].(string)
+		return nil
+	case "vnNoteAppend":
+		e.res.Note += args[0].(string)
 		return nil
 	case "vnTrace":
 		e.res.Digest = append(e.res.Digest, args[0].(string))
@@ -538,7 +545,7 @@ func (e *Explorer) intrinsic(it *Interp, name string, args []Value) Value {
 		return nil
 	case "vnFeasible":
 		// is the path condition (with all assumptions so far) satisfiable?
-		r := e.s.Check()
+		r := e.s.CheckPath()
 		if r != "sat" && r != "unsat" {
 			panic(abortPath{"solver: " + r})
 		}
@@ -560,4 +567,58 @@ func dedup(ss []string) []string {
 		}
 	}
 	return out
+}
+
+// tighten narrows the interval of a variable from an assumed comparison with
+// a constant (sound: the assumption is part of the path condition).
+func tighten(c *Term) {
+	if c.op == "and" {
+		for _, a := range c.args {
+			tighten(a)
+		}
+		return
+	}
+	if len(c.args) != 2 {
+		return
+	}
+	a, b := c.args[0], c.args[1]
+	op := c.op
+	if a.op == "int" && b.op == "var" {
+		// flip: const op var  ==  var op' const
+		a, b = b, a
+		switch op {
+		case "<":
+			op = ">"
+		case "<=":
+			op = ">="
+		case ">":
+			op = "<"
+		case ">=":
+			op = "<="
+		}
+	}
+	if a.op != "var" || a.isB || b.op != "int" || !a.iv {
+		return
+	}
+	k := b.ival
+	switch op {
+	case "<=":
+		if k < a.hi {
+			a.hi = k
+		}
+	case "<":
+		if k-1 < a.hi {
+			a.hi = k - 1
+		}
+	case ">=":
+		if k > a.lo {
+			a.lo = k
+		}
+	case ">":
+		if k+1 > a.lo {
+			a.lo = k + 1
+		}
+	case "=":
+		a.lo, a.hi = k, k
+	}
 }
